@@ -65,20 +65,26 @@ func (t *taskState) unmarshalOp(i int, po *prepOp) {
 	} else {
 		in = append(make([]byte, 0, len(po.data)), po.data...)
 	}
-	if po.op.Target > 0 {
+	if po.op.Target > 0 && t.x.prop == "C11" {
+		t.reuseDecodeAlias(i, po, in)
+	} else if po.op.Target > 0 && t.x.prop == "C19" {
+		t.reuseDecodeTwin(i, po, in)
+	} else if po.op.Target > 0 {
 		t.reuseDecode(i, po, in)
 	} else {
 		out := reflect.New(po.ti.T)
 		err := p.Unmarshal(in, out.Interface())
 		t.checkDecoded(i, po, out, err)
-		if err == nil && po.twinVal.IsValid() {
+		if err == nil && po.twinVal.IsValid() && t.x.prop == "C19" {
 			// interning must be transparent: same data as the twin type without the option
 			if a, b := world.Dump(out.Elem()), world.Dump(po.twinVal); a != b {
 				t.fail(i, po, "mismatch", "decoded value differs from the non-interned twin's decode "+world.DiffDump(a, b))
 			}
 		}
 		if err == nil && po.op.Hold {
-			t.live = append(t.live, liveVal{ptr: out, exp: po.expVal, op: i})
+			// what must never change later is the value as it was when Unmarshal
+			// returned: an independent deep copy taken right now
+			t.live = append(t.live, liveVal{ptr: out, exp: world.Clone(out.Elem()), op: i})
 		}
 	}
 	if string(in) != string(po.data) {
@@ -144,6 +150,79 @@ func (t *taskState) reuseDecode(i int, po *prepOp, in []byte) {
 			t.probe("merge_model_checked")
 		}
 	}
+}
+
+// reuseDecodeAlias (C11): decode into a re-used target, then treat the whole
+// target as a live value: its content right after Unmarshal returned must
+// survive any later overwrite of the input buffer.
+func (t *taskState) reuseDecodeAlias(i int, po *prepOp, in []byte) {
+	p := t.inst(po)
+	slot := po.op.Target
+	tgt, ok := t.targets[slot]
+	if !ok || tgt.Type().Elem() != po.ti.T {
+		tgt = reflect.New(po.ti.T)
+		t.targets[slot] = tgt
+	} else {
+		t.probe("target_reused")
+	}
+	err := p.Unmarshal(in, tgt.Interface())
+	// drop the previous snapshot of this slot
+	live := t.live[:0]
+	for _, lv := range t.live {
+		if lv.slot != slot {
+			live = append(live, lv)
+		}
+	}
+	t.live = live
+	if err != nil {
+		delete(t.targets, slot)
+		return
+	}
+	t.live = append(t.live, liveVal{slot: slot, ptr: tgt, exp: world.Clone(tgt.Elem()), op: i})
+}
+
+// reuseDecodeTwin (C19): the interned type and its twin without the option are
+// decoded into two re-used targets that saw the same history; they must hold
+// the same data afterwards.
+func (t *taskState) reuseDecodeTwin(i int, po *prepOp, in []byte) {
+	p := t.inst(po)
+	slot := po.op.Target
+	if po.ti.Twin == "" {
+		return
+	}
+	tt := typeInfo(po.ti.Twin).T
+	tgt, ok := t.targets[slot]
+	twin, ok2 := t.twins[slot]
+	if !ok || !ok2 || tgt.Type().Elem() != po.ti.T {
+		tgt, twin = reflect.New(po.ti.T), reflect.New(tt)
+		t.targets[slot], t.twins[slot] = tgt, twin
+	} else {
+		t.probe("target_reused")
+	}
+	err1 := p.Unmarshal(in, tgt.Interface())
+	err2 := p.Unmarshal(append([]byte(nil), po.data...), twin.Interface())
+	if errText(err1) != errText(err2) {
+		t.fail(i, po, "error-mismatch", fmt.Sprintf("with interning the decode gives error %q, without %q", errText(err1), errText(err2)))
+	}
+	if err1 != nil || err2 != nil {
+		delete(t.targets, slot)
+		delete(t.twins, slot)
+		return
+	}
+	if a, b := world.Dump(tgt.Elem()), world.Dump(twin.Elem()); a != b {
+		t.fail(i, po, "mismatch", "after the same history of decodes into re-used targets the interned type and its twin differ "+world.DiffDump(a, b))
+		delete(t.targets, slot)
+		delete(t.twins, slot)
+		return
+	}
+	// the re-used interned target is a live value too
+	live := t.live[:0]
+	for _, lv := range t.live {
+		if lv.slot != slot {
+			live = append(live, lv)
+		}
+	}
+	t.live = append(live, liveVal{slot: slot, ptr: tgt, exp: world.Clone(tgt.Elem()), op: i})
 }
 
 func hasSpareCapacity(v reflect.Value, depth int) bool {
@@ -230,7 +309,7 @@ func (t *taskState) marshalAppendOp(i int, po *prepOp) {
 	backing := t.out[:cap(t.out)]
 	prefix := append([]byte(nil), t.out...)
 	res, err := p.Marshal(t.out, po.val.Addr().Interface())
-	if e := errText(err); e != po.expErr {
+	if e := errText(err); e != po.expErr && propRules[t.x.prop].solo {
 		t.fail(i, po, "error-mismatch", fmt.Sprintf("Marshal error %q, alone it is %q", e, po.expErr))
 		return
 	}
@@ -250,12 +329,17 @@ func (t *taskState) marshalAppendOp(i int, po *prepOp) {
 		return // value omitted entirely (C06's clause, not checked here)
 	}
 	if len(res) < oldLen || string(res[:oldLen]) != string(prefix) {
-		t.fail(i, po, "mismatch", "Marshal did not return the existing bytes followed by the encoding")
+		// C06's clause, not C11's: the caller's own memory was checked above
+		t.probe("other_property:marshal_result_is_not_prefix_plus_encoding")
+		t.out = t.out[:0]
 		return
 	}
 	if !world.SameEncoding(po.ti.T, res[oldLen:], po.expBytes) {
-		t.fail(i, po, "mismatch", fmt.Sprintf("appended encoding %s differs from the solo encoding %s", hexShort(res[oldLen:]), hexShort(po.expBytes)))
-		return
+		if propRules[t.x.prop].solo {
+			t.fail(i, po, "mismatch", fmt.Sprintf("appended encoding %s differs from the solo encoding %s", hexShort(res[oldLen:]), hexShort(po.expBytes)))
+			return
+		}
+		t.probe("other_property:encoding_differs_from_solo")
 	}
 	t.aliasCheck(i, po, res[oldLen:])
 	t.out = res
